@@ -701,9 +701,15 @@ func (w *world) stateless(col *collector) {
 	// an invalid share among the first t+1: error or an invalid signature (documented); never a second valid one
 	if got == "" {
 		hasher := crypto.NewExpandMsgXOFKMAC128(w.tag)
+		// the result may even be valid (shares invalid for their signers can interpolate to the
+		// group signature when Lagrange coefficients coincide); what must never happen is a
+		// SECOND valid signature
 		ok, _ := w.gpk.Verify(sig, w.msgB, hasher)
+		if ok && hex.EncodeToString(sig) != w.env.GroupSig {
+			w.viol("C06", "unique", "stateless.second-valid-signature", "stateless reconstruction returned a signature that verifies under the group key but differs from the group signature")
+		}
 		if ok {
-			w.viol("C06", "unique", "stateless.valid-from-invalid", "stateless reconstruction including an invalid share returned a signature that verifies under the group key")
+			w.out.Probes["stateless_valid_despite_invalid_share"]++
 		}
 	} else if got != "invalidsig" {
 		w.viol("C06", "stateless", "stateless.errclass", "stateless reconstruction with an invalid share returned err=%q", got)
